@@ -88,7 +88,9 @@ def main():
     if order != sorted(order):
         sys.stderr.write("c15_consts: order of prepare / summary / absorb / assert_empty / squeeze r changed\n")
         sys.exit(1)
-    need(r"for guard in guards\.into_iter\(\)\.skip\(1\) \{\s*acc_guard\.scale\(r\);\s*acc_guard\.add_msm\(guard\);\s*\}", bv, "Horner loop of batch_verify")
+    # the loop `for g in guards.skip(1) { acc.scale(r); acc.add_msm(g) }` up to the names of its variables (a
+    # renaming is not an alarm; scaling the incoming guard instead of the running one — seed C15-1 — is)
+    need(r"for (?:mut )?(\w+) in (\w+)\.into_iter\(\)\.skip\(1\) \{\s*(\w+)\.scale\((\w+)\);\s*\3\.add_msm\(\1\);\s*\}", bv, "Horner loop of batch_verify")
 
     def lean_str(s):
         return '"' + s.replace("\\", "\\\\").replace('"', '\\"') + '"'
